@@ -428,6 +428,38 @@ def eval_C13(item):
     tb = tb / JY_SI / oscale
     if not close(got, tb, float(tb), tol):
         res['pred'].append('total flux %r differs from the textbook conversion %r' % (got, float(tb)))
+    # the flux property of the statistic classes feeds the sum of the values, data_unit and the metadata
+    idx2 = (np.arange(len(vals)) // 3, np.arange(len(vals)) % 3)
+    md = {'data_unit': unit, 'wavelength': meta['wavelength'], 'spatial_scale': meta['spatial_scale'],
+          'beam_major': meta['beam_major'], 'beam_minor': meta['beam_minor']}
+    tb_jy = float(tb * oscale)
+    with warnings.catch_warnings():
+        warnings.simplefilter('ignore')
+        try:
+            f2 = PPStatistic(ScalarStatistic(np.array(vals), idx2), md).flux
+            if f2.unit != u.Jy or not close(float(f2.value), tb_jy, tb_jy, tol):
+                res['pred'].append('PPStatistic.flux = %r, textbook conversion of the summed values %r Jy' % (f2, tb_jy))
+            idx3 = (np.zeros(len(vals), dtype=int),) + idx2
+            md3 = dict(md)
+            md3['velocity_scale'] = 2.0 * u.km / u.s
+            f3 = PPVStatistic(ScalarStatistic(np.array(vals), idx3), md3).flux
+            if f3.unit != u.Jy or not close(float(f3.value), tb_jy, tb_jy, tol):
+                res['pred'].append('PPVStatistic.flux = %r, textbook conversion of the summed values %r Jy' % (f3, tb_jy))
+        except Exception as e:
+            res['pred'].append('flux property raised %s: %s' % (type(e).__name__, str(e)[:80]))
+        # a required item that is missing in the metadata must surface as an error from the property too
+        need = NEEDS[fam]
+        if need:
+            k_ = {'w': 'wavelength', 's': 'spatial_scale', 'a': 'beam_major', 'b': 'beam_minor'}[need[item['split'] % len(need)]]
+            md4 = dict(md)
+            del md4[k_]
+            try:
+                PPStatistic(ScalarStatistic(np.array(vals), idx2), md4).flux
+                res['pred'].append('flux property returned a number although %s is missing from the metadata' % k_)
+            except ValueError:
+                pass
+            except Exception as e:
+                res['pred'].append('flux property with %s missing raised %s' % (k_, type(e).__name__))
     # linear, additive, unit-independent
     a = item['a']
     ra = float(flux_call(fam, [a * v for v in vals], unit, out, meta).value)
